@@ -37,9 +37,14 @@ CORE_MODULES = ["cij.core.calculator", "cij.core.full_modulus", "cij.core.tasks"
                 "cij.util.units", "cij.io.traditional.elast_dat", "cij.io.traditional.qha_input", "cij.io.output.results_writer"]
 
 # X1 triage: one named symbol per entry, with the reason (DESIGN section 6 C12)
+# domain assumptions of command functions (instead of suppressing the names today's code happens to use): which option
+# parameters are an exactly-one-of group, and which parameters are non-empty lists
+X1_DOMAIN = {
+    ("cij.cli.extract", "main"): dict(one_of={"temperature", "pressure"}, nonempty={"variables"},
+                                      why="extract requires exactly one of -T / -P and at least one variable (C19's domain)"),
+    ("cij.cli.geotherm", "main"): dict(one_of=set(), nonempty={"variables"}, why="extract-geotherm requires at least one variable"),
+}
 X1_SUPPRESS = {
-    ("cij.cli.extract", "main", "y"): "neither -T nor -P given: outside C19's domain (the command requires one of them)",
-    ("cij.cli.extract", "main", "x_array"): "empty variable list: outside C19's domain",
     ("cij.core.mode_gamma", "interpolate_mode_ppoly", "Interpolator"): "callee handles exactly the names its only caller dispatches to it: decided by R11.5 (dispatch.ppoly)",
     ("cij.io.traditional.qha_input", "read_energy", "nv"): "file without a counts line: outside 'well-formed file'",
     ("cij.io.traditional.qha_input", "read_energy", "nq"): "file without a counts line: outside 'well-formed file'",
@@ -274,7 +279,27 @@ def r_wellformed(ctx, model):
         seen = set()
         for q, f in mod.funcs.items():
             nf += 1
-            da = DefiniteAssignment(f)
+            dom = X1_DOMAIN.get((mname, q))
+            if dom:
+                def _names(node):
+                    return {x.id for x in ast.walk(node) if isinstance(x, ast.Name)}
+
+                def exhaustive(chain, dom=dom):
+                    # every link tests only option parameters of the one-of group, and together they mention all of them
+                    used = set()
+                    for tnode in chain:
+                        nm = _names(tnode) - {"None", "True", "False"}
+                        if not nm or not nm <= dom["one_of"]:
+                            return False
+                        used |= nm
+                    return bool(dom["one_of"]) and used == dom["one_of"]
+
+                def nonempty(it, dom=dom, f=f):
+                    return isinstance(it, ast.Name) and it.id in dom["nonempty"]
+                da = DefiniteAssignment(f, exhaustive=exhaustive, nonempty=nonempty)
+                suppressed.append(f"{mname}:{q} - domain assumption: {dom['why']}")
+            else:
+                da = DefiniteAssignment(f)
             outer_locals = set()
             parts = q.split(".")
             for k in range(1, len(parts)):
